@@ -596,6 +596,10 @@ fn check_eq(ctx: &mut Ctx, what: &str, lhs: &Term, rhs: &Term) {
     let (k1, k2) = match (safe_steps(lhs, 3000, 4000), safe_steps(rhs, 3000, 4000)) {
         (Some(a), Some(b)) => (a, b),
         _ => {
+            if ctx.strict {
+                // payloads that are variables or normal forms: both sides certainly normalise, a skip can only be a bug
+                ctx.fail(&format!("{}: an instance with normal-form payloads did not normalise within 3000 steps / 4000 nodes", what), &[reduce_op(NOR, 3000, lhs), reduce_op(NOR, 3000, rhs)]);
+            }
             ctx.count("law_instance_skipped_diverging_or_exploding_payload");
             return;
         }
@@ -656,7 +660,8 @@ pub fn c17(ctx: &mut Ctx) {
         let w: Vec<Term> = (0..4).map(|_| { let bb = 1 + ctx.rng.below(5); random_term(&mut ctx.rng, bb, 0, false, 0) }).collect();
         payload_sets.push(w);
     }
-    for ps in &payload_sets {
+    for (pi, ps) in payload_sets.iter().enumerate() {
+        ctx.strict = pi < 2;
         let (x, y, z, f) = (ps[0].clone(), ps[1].clone(), ps[2].clone(), ps[3].clone());
         // payloads may themselves be reducible: compare normal forms of both sides
         check_eq(ctx, "I x = x", &app(I(), x.clone()), &x);
@@ -762,6 +767,7 @@ pub fn c17(ctx: &mut Ctx) {
             }
         }
     }
+    ctx.strict = false;
     for ps in payload_sets.iter().skip(2).step_by(2).take(if ctx.thorough { 100 } else { 15 }) {
         let (x, y) = (ps[0].clone(), ps[1].clone());
         // closed payloads: the From conversion is the normal form of the constructor application
